@@ -674,7 +674,7 @@ Fixpoint drain_all (v : variant) (c : cfg) (s : comp) (q : list ev) (obsl : list
   | e :: r => drain_all v c (fst (dispatch v c s e (hd None obsl))) r (tl obsl)
   end.
 
-(* v_queue (variant flag): a Released event is queued even when the queue is full *)
+(* vq: a Released event is queued even when the queue is full (f92bf5a; vq = true is /repo HEAD) *)
 Definition estep (vq : bool) (v : variant) (c : cfg) (s : ecomp) (o : eop) : ecomp :=
   match o with
   | EvDeliver e obs =>
